@@ -65,13 +65,45 @@ pub fn replay(cases: &str, verdicts: &str) {
     for_each_line(cases, |c0| {
       v.cases += 1;
       // homogeneity (Inv_Homogeneous): operands scaled by powers of two, expected product scaled by their product
-      for (sa, sb) in [(0i32, 0i32), (-60, 60), (-55, -55), (300, 200), (-500, 0)] {
-        if (sa, sb) != (0, 0) && v.cases % 3 != 0 { continue; }
+      // (9001 / 9002: one operand is square and symmetric up to the last bit - entries 2^53 and, above the diagonal, 2^53 + 2 -, the other
+      // selects rows / columns (a single 1 per row / column, so every association of the sums is exact): the product shows whether the
+      // square operand was transposed exactly as the flags say, whatever an approximate symmetry test thinks of it)
+      for (sa, sb) in [(0i32, 0i32), (-60, 60), (-55, -55), (300, 200), (-500, 0), (9001, 9001), (9002, 9002)] {
+        if (sa, sb) != (0, 0) && sa < 9000 && v.cases % 3 != 0 { continue; }
+        let near_sym = sa >= 9000;
         let scale = |m: &Value, e: i32| -> Value { if m.get("panic").is_some() { return m.clone(); } let mut m = m.clone(); let f = 2f64.powi(e);
             let d: Vec<Value> = m["data"].as_array().unwrap().iter().map(|x| json!(x.as_f64().unwrap() * f)).collect(); m["data"] = json!(d); m };
         let mut c = c0.clone();
-        if (sa, sb) != (0, 0) { c["a"] = scale(&c0["a"], sa); c["b"] = scale(&c0["b"], sb); c["exp"] = scale(&c0["exp"], sa + sb); c["xtx"] = scale(&c0["xtx"], 2 * sa); c["scale"] = json!([sa, sb]); }
-        let sc = if (sa, sb) == (0, 0) { String::new() } else { " scaled".to_string() };
+        if near_sym {
+            let (m, l, n) = (c0["m"].as_u64().unwrap() as usize, c0["l"].as_u64().unwrap() as usize, c0["n"].as_u64().unwrap() as usize);
+            let (ta, tb) = (c0["ta"].as_bool().unwrap(), c0["tb"].as_bool().unwrap());
+            if c0["bad"].as_i64().unwrap() == 1 { continue; }
+            let big = |i: usize, j: usize| 9007199254740992.0 + if i < j { 2.0 } else { 0.0 };
+            let store = |logical: &dyn Fn(usize, usize) -> f64, r: usize, cc: usize, t: bool| -> Value {
+                // logical r x cc matrix, stored transposed when the flag says the call will transpose it back
+                let (sr, scc) = if t { (cc, r) } else { (r, cc) };
+                json!({"nrows": sr, "ncols": scc, "data": (0..sr * scc).map(|q| { let (i, j) = (q / scc, q % scc); if t { logical(j, i) } else { logical(i, j) } }).collect::<Vec<f64>>()}) };
+            if sa == 9001 {
+                if l != n || l < 2 { continue; }
+                // B's STORAGE is the near-symmetric matrix; op(B) = storage or its transpose; op(A) selects row (2 i + 1) mod l
+                let opb = |k: usize, j: usize| if tb { big(j, k) } else { big(k, j) };
+                let opa = |i: usize, k: usize| if k == (2 * i + 1) % l { 1.0 } else { 0.0 };
+                c["a"] = store(&opa, m, l, ta);
+                c["b"] = json!({"nrows": l, "ncols": n, "data": (0..l * n).map(|q| big(q / n, q % n)).collect::<Vec<f64>>()});
+                c["exp"] = json!({"nrows": m, "ncols": n, "data": (0..m * n).map(|q| opb((2 * (q / n) + 1) % l, q % n)).collect::<Vec<f64>>()});
+            } else {
+                if m != l || l < 2 { continue; }
+                let opa = |i: usize, k: usize| if ta { big(k, i) } else { big(i, k) };
+                let opb = |k: usize, j: usize| if k == (2 * j + 1) % l { 1.0 } else { 0.0 };
+                c["a"] = json!({"nrows": m, "ncols": l, "data": (0..m * l).map(|q| big(q / l, q % l)).collect::<Vec<f64>>()});
+                c["b"] = store(&opb, l, n, tb);
+                c["exp"] = json!({"nrows": m, "ncols": n, "data": (0..m * n).map(|q| opa(q / n, (2 * (q % n) + 1) % l)).collect::<Vec<f64>>()});
+            }
+            // X^T X of the new A (exact: at most one or two terms per entry would not be in general - not judged for this variant)
+            c["xtx"] = json!(null);
+            c["scale"] = json!("near-symmetric");
+        } else if (sa, sb) != (0, 0) { c["a"] = scale(&c0["a"], sa); c["b"] = scale(&c0["b"], sb); c["exp"] = scale(&c0["exp"], sa + sb); c["xtx"] = scale(&c0["xtx"], 2 * sa); c["scale"] = json!([sa, sb]); }
+        let sc = if (sa, sb) == (0, 0) { String::new() } else if near_sym { " near-symmetric-operand".to_string() } else { " scaled".to_string() };
         let a = mat_of(&c["a"]);
         let b = mat_of(&c["b"]);
         let (ta, tb) = (c["ta"].as_bool().unwrap(), c["tb"].as_bool().unwrap());
@@ -110,7 +142,7 @@ pub fn replay(cases: &str, verdicts: &str) {
                 v.check(same, if f2 { "Matrix.dot_t(Matrix)" } else { "Matrix.t_dot(Matrix)" }, &format!("aliased operands {}", shape), &c, json!(alias.as_ref().map(mat_json)));
             }
         }
-        if !bad {
+        if !bad && !near_sym {
             let g = guard(|| xtx(&a.data, a.nrows));
             let e = mat_of(&c["xtx"]);
             v.check(g.as_ref().map(|r| all_eq(r, &e.data)).unwrap_or(false), "xtx", shape, &c, json!(g.as_ref().map(|r| fjs(r))));
